@@ -52,11 +52,11 @@ func newLazyState(p *Path) *lazyState {
 
 // lazyPending marks a cell whose content has not been read yet.
 type lazyPending struct {
-	path  string
-	depth int
-	key   string // spec key of the field this cell is ("pkg.Type.Field"), "" for roots/elements
-	prot  bool   // created inside a protected object
-	root  bool
+	path     string
+	depth    int
+	key      string // spec key of the field this cell is ("pkg.Type.Field"), "" for roots/elements
+	prot     bool   // created inside a protected object
+	root     bool
 	only     []string // interface cell: restrict candidate dynamic types
 	elemOnly []string // slice cell: restriction for the elements
 	listOnly []string // *ast.BlockStmt cell: restriction for the statements of its List
